@@ -279,6 +279,16 @@ Theorem C01_history_flushed : forall progs,
 Proof. exact (@WinHistoryFull.history_flushed3). Qed.
 Print Assumptions C01_history_flushed.
 
+(* ... for EVERY amount of fuel of the rectangle-set loops: the fuel is a field of the window state
+   ([r_fuel]; [m_init_f fuel] starts with that amount, [m_init] = [m_init_f rsfuel] with rsfuel = 300,
+   the amount the extracted model runs with).  All theorems of this file that quantify over a state
+   [st] / a model state [m] hold for every amount; [r_fault] = "some rectangle-set loop ran out of
+   the state's fuel" *)
+Theorem C01_init_full_any_fuel : forall fuel nl nc orc, 0 < nl -> 0 < nc ->
+  r_fault (m_root (m_init_f fuel nl nc orc)) = false -> MInv3 (m_init_f fuel nl nc orc).
+Proof. exact (@WinHistoryFull.init_inv3_f). Qed.
+Print Assumptions C01_init_full_any_fuel.
+
 Theorem C01_init_full : forall nl nc orc, 0 < nl -> 0 < nc -> r_fault (m_root (m_init nl nc orc)) = false ->
   MInv3 (m_init nl nc orc).
 Proof. exact (@WinHistoryFull.init_inv3). Qed.
